@@ -114,6 +114,8 @@ impl CleanMarkerStore {
         fs::rename(&tmp_path, path)?;
         // make the rename durable (see WalIndex::persist)
         if let Some(dir) = std::path::Path::new(path).parent() {
+            #[cfg(walrus_verif)]
+            crate::wal::verif::io_check(crate::wal::verif::IoKind::DirFsync, &dir.to_string_lossy(), "", 0, 0)?;
             fs::File::open(dir)?.sync_all()?;
         }
         Ok(())
